@@ -49,6 +49,8 @@ class Exec(ExprMixin, CallMixin, BuiltinMixin, StmtMixin, ExecBase):
         if kind == "class":
             raise BindError("%s is a class" % c.qn)
         self.cur_fn = self.short(c.qn)
+        self.force_inline = set(c.inline_callees or [])
+        self.typing_exceptions = dict(c.typing_exceptions or {})
         self.sha[c.qn] = self.repo.seg_sha(mod, node)
         st = State_with_top(self.top0)
         env = {}
@@ -80,6 +82,8 @@ class Exec(ExprMixin, CallMixin, BuiltinMixin, StmtMixin, ExecBase):
             v = fresh(so, p)
             self.assume_wf(st, v)
             env[p] = v
+        for al, tgt in (c.aliases or {}).items():
+            env[al] = env[tgt]
         st.env = env
         for lab, ex in c.requires:
             st.pc.append(truth(self.eval_spec(ex, st, env, None, c.module)))
